@@ -134,8 +134,8 @@ fn read(fmt: &str, bytes: &[u8]) -> Result<(Data, Data), String> {
 }
 
 fn applicable(fmt: &str, s: &str) -> bool {
-    // ods element content cannot carry a literal tab (ODF: text:tab, not named by the statement)
-    !(fmt == "ods" && s.contains('\t'))
+    let _ = (fmt, s);
+    true
 }
 
 fn run_case(rep: &Report, ch: &mut Chooser, fmt: &str, s: &str, local: &mut Vec<(u64, bool, u64)>) {
@@ -167,7 +167,7 @@ fn run_case(rep: &Report, ch: &mut Chooser, fmt: &str, s: &str, local: &mut Vec<
 pub fn check(rep: &Report) {
     let t = crate::thorough(&rep.tier);
     rep.rule("strings = every concatenation of <= 3 atoms from {a, space, two spaces, tab, LF, &, <, >, \", ', ]]>, e-acute, euro, U+1F600} plus \"\" and one 32767-character string; storage forms: xlsx shared/inline/formula-string x entities/decimal/hex character references/CDATA x {plain t, 1-3 rich runs, rPh + phoneticPr} x empty <si/> before/between x namespace prefix; xlsb Isst (plain/rich/phonetic)/St/FmlaString; xls SST (plain/rich/ExtRst)/LABEL/STRING x 8/16-bit; ods content with text:s variants, literal spaces, spans, paragraphs, or string-value attribute; full form product for strings of <= 2 atoms (thorough: 3), <= 1 deviation for 3-atom strings; non-trivial = non-default storage form or multi-atom string; distinct by file bytes");
-    rep.assume("a cell holding the empty string may read as Empty or String(\"\"); ods strings containing a tab are only stored in the attribute form");
+    rep.assume("a cell holding the empty string may read as Empty or String(\"\"); in ods element content a tab is the text:tab element");
     let mut strings: Vec<String> = vec![String::new()];
     for a in ATOMS { strings.push(a.to_string()); }
     for a in ATOMS { for b in ATOMS { strings.push(format!("{a}{b}")); } }
